@@ -271,6 +271,16 @@ def gen_numeric_text(r, maxexp=60):
 
 
 def gen_text(r):
+    """texts whose numeric reading (if any) stays within 10^+-500: the property quantifies over exponents of a few tens;
+    the implementation itself needs seconds for int(Decimal('1e1555267'))"""
+    while True:
+        s = gen_text_raw(r)
+        t = cpython_numeric(s)
+        if t is None or (abs(t[2]) <= 500 and len(str(t[1])) <= 120):
+            return s
+
+
+def gen_text_raw(r):
     k = r.random()
     if k < 0.35:
         return cp(r.choice(TEXTS))
@@ -598,6 +608,9 @@ def run(run, tier, seed, replay=None):
         cj.append(prim_job(r, byname["Mos"], 0, prefixes, enums, v=v))
         cj.append(prim_job(r, byname["PulseVoltageSource"], 0, prefixes, enums, v=v))
         cj.append(dict(tgt=["ext", "dict", None, cp("X")], given=[[cp("p"), v]], all=[(cp("p"), 4, v)]))
+    for v in [("str", cp("wparam")), ("lit", cp("l*2")), ("str", cp("1e-30")), ("int", 0), ("pre", (0, 1, -30), -24), ("pre", (0, 1, 0), -24)]:
+        cj.append(prim_job(r, byname["Bipolar"], 0, prefixes, enums, v=v))      # Literal width: TypeError on the pinned tree
+        cj.append(prim_job(r, byname["Bipolar"], 1, prefixes, enums, v=v))
     outs, bad = run_insts(run, "corpus", cj, enums)
     report_insts(run, "corpus", cj, outs, bad)
     run.sample(dict(stream="corpus", entry="inst", case=job_json(cj[2]), impl=show_out(outs[2])))
